@@ -260,11 +260,24 @@ func (key *Key) UnmarshalJSON(data []byte) error {
 
 var _ json.Marshaler = (*Key)(nil)
 
+// registeredMembers is the list of the JWK members that have accessors:
+// the common parameters of RFC 7517 Section 4 and the key parameters of RFC 7518 Section 6 and RFC 8037 Section 2.
+var registeredMembers = [...]string{
+	"kty", "use", "key_ops", "alg", "kid", "x5u", "x5c", "x5t", "x5t#S256",
+	"crv", "x", "y", "d", "n", "e", "p", "q", "dp", "dq", "qi", "oth", "k",
+}
+
 // MarshalJSON implements [encoding/json.Marshaler]
 func (key *Key) MarshalJSON() ([]byte, error) {
 	raw := make(map[string]any, len(key.Raw))
 	for k, v := range key.Raw {
 		raw[k] = v
+	}
+	// the registered members are emitted from the key itself; a member of the decoded
+	// JWK that the key no longer has (a private part dropped by SetPublicKey,
+	// a parameter reset through its setter) must not be emitted from Raw.
+	for _, name := range registeredMembers {
+		delete(raw, name)
 	}
 	e := jsonutils.NewEncoder(raw)
 	encodeCommonParameters(e, key)
